@@ -258,7 +258,15 @@ impl Send {
         // on idle streams and §6.4 says RST_STREAM on idle is a PROTOCOL_ERROR.
         // Keep the queued HEADERS so the stream opens, then send the reset
         // immediately after.
-        if !stream.is_pending_open {
+        if stream.is_pending_open {
+            // Only the initial HEADERS must survive: anything queued behind
+            // it (DATA, trailers) is discarded like for any other reset.
+            let headers = stream.pending_send.pop_front(buffer);
+            self.prioritize.clear_queue(buffer, stream);
+            if let Some(frame) = headers {
+                stream.pending_send.push_back(buffer, frame);
+            }
+        } else {
             // Otherwise, drop any buffered DATA/HEADERS and only send the
             // reset.
             //
